@@ -287,7 +287,7 @@ def judge(res, cfg, args, faults, r, user_alpha, d, dyn, precomputed):
         if abs(float(pens[t]) - st["pen"]) > 1e-12 * max(1.0, abs(st["pen"])):
             V("C07:record:penalty", {"t": t, "recorded": float(pens[t]), "model": st["pen"]})
             break
-        if not (float(geminis[t]) == st["score"]):
+        if not (abs(float(geminis[t]) - st["score"]) <= 1e-12 * max(1.0, abs(st["score"]))):
             V("C07:record:gemini", {"t": t, "recorded": float(geminis[t]), "model": st["score"]})
             break
     # ---- stopping
